@@ -706,9 +706,21 @@ pub fn run_script<B: Backend>(backend: &mut B, lines: &mut dyn Iterator<Item = S
                     let d: usize = toks[1].parse().unwrap();
                     let s: usize = toks[2].parse().unwrap();
                     let g = w.graph.unwrap();
+                    // feed <dst> <src> [heads=i,j,...]: with `heads`, only the listed heads of <src> (indexes into its
+                    // head list sorted by id) and everything that is not a head
                     let cmds: Vec<HxCmd> = {
                         let storage = w.clients[s].provider().get_storage(g).expect("feed: source storage");
-                        collect_commands(&*storage)
+                        let all = collect_commands(&*storage);
+                        match kv(&toks, "heads") {
+                            None => all,
+                            Some(sel) => {
+                                let mut hs: Vec<CmdId> = storage.get_heads().expect("heads").iter().map(|h| h.id).collect();
+                                hs.sort_by(|a, b| a.as_bytes().cmp(b.as_bytes()));
+                                let keep: BTreeSet<usize> = sel.split(',').filter(|x| !x.is_empty()).map(|x| x.parse().unwrap()).collect();
+                                let drop: Vec<CmdId> = hs.iter().enumerate().filter(|(i, _)| !keep.contains(i)).map(|(_, h)| *h).collect();
+                                all.into_iter().filter(|c| !drop.contains(&c.id)).collect()
+                            }
+                        }
                     };
                     let bufs = &mut *w.bufs;
                     let mut trx = w.clients[d].transaction(g);
